@@ -177,6 +177,21 @@ func (c *Case) ViolateExtra(kind string, extra any, format string, args ...any) 
 	}
 }
 
+// ViolateOncef records the violation unless this case already holds one of the same kind (checks
+// that evaluate many inputs per case keep going after a violation without filling the list with
+// repeats of one class).
+func (c *Case) ViolateOncef(kind, format string, args ...any) {
+	c.mu.Lock()
+	for _, v := range c.res.Violations {
+		if v.Kind == kind {
+			c.mu.Unlock()
+			return
+		}
+	}
+	c.mu.Unlock()
+	c.Violatef(kind, format, args...)
+}
+
 func (c *Case) Violated() bool {
 	c.mu.Lock()
 	defer c.mu.Unlock()
